@@ -304,6 +304,9 @@ Section Pairing.
   Qed.
 End Pairing.
 
+Lemma post_def (V : Type) (add : V -> V -> V) (s : sample V) : s_post V add s = add (s_ll s) (s_lp s).
+Proof. reflexivity. Qed.
+
 (* ================= the statements, quantified over every exact arithmetic ================= *)
 
 Definition emcee_pairing_statement (aligned : bool) : Prop :=
